@@ -1057,6 +1057,40 @@ fn part_validity(ctx: &mut Ctx) {
     }
     ctx.obs("verify_at_accepted", acc);
     ctx.obs("verify_at_rejected", rej);
+    // evaluation instants are not whole seconds in practice: a fraction of a
+    // second outside either end is outside, a fraction inside is inside
+    {
+        let frac = |secs: i64, nanos: u32| DateTime::<Utc>::from_timestamp(secs, nanos).map(Time::new);
+        let mut sub_evals = 0u64;
+        for i in 0..pool.len().min(24) {
+            for j in i..pool.len().min(24) {
+                let (nb, na) = (pool[i], pool[j]);
+                let v = Validity::new(times[i], times[j]);
+                let probes: [(&str, i64, u32, bool); 6] = [
+                    ("1ms-after-not_after", na, 1_000_000, false),
+                    ("999ms-after-not_after", na, 999_000_000, false),
+                    ("1ns-after-not_after", na, 1, false),
+                    ("1ms-before-not_before", nb - 1, 999_000_000, false),
+                    ("1ms-after-not_before", nb, 1_000_000, nb < na),
+                    ("1ms-before-not_after", na - 1, 999_000_000, nb < na),
+                ];
+                for (what, secs, nanos, want) in probes {
+                    let Some(now) = frac(secs, nanos) else { continue };
+                    let got = v.verify_at(now).is_ok();
+                    sub_evals += 1;
+                    if got != want {
+                        ctx.violation(
+                            &format!("C17:validity:verify_at:sub-second:{}", what),
+                            &format!("verify_at = {} at an instant {} (window {}..{}), expected {}", got, what, nb, na, want),
+                            json!({"not_before": nb, "not_after": na, "now_seconds": secs, "now_nanos": nanos}),
+                        );
+                    }
+                    ctx.sig(&format!("verify_at sub-second {} window {}", what, if nb < na { "non-empty" } else { "instant" }));
+                }
+            }
+        }
+        ctx.evals(sub_evals);
+    }
     // trim over all pairs of windows built from a sub-pool, probed with the whole pool
     let step = (pool.len() / nwin).max(1);
     let sub: Vec<usize> = (0..pool.len()).step_by(step).take(nwin).collect();
